@@ -110,6 +110,17 @@ example : verdict { hdr := 400, body := 400 } { th := none, tb := none } 10 = .t
 example : verdict { hdr := 400, body := 2000 } { th := some 5, tb := some 1000 } 10 = .served := by decide
 example : verdict { hdr := 400, body := 700 } { th := some 5, tb := some 1300 } 10 = .timedOut 2 := by decide
 
+/-- T6 (with the timer period the source has NOW — `Gen.timerPeriodMs` is regenerated from src/server/endpoint.cc on every run):
+    the period is positive and below one second (the code's own static_assert), so a connection whose head never completes is
+    answered 408 less than one second after its header time-out, whatever the time-outs are. -/
+theorem source_period_bounds : 0 < Gen.timerPeriodMs ∧ Gen.timerPeriodMs < 1000 := by decide
+
+theorem stalled_head_times_out_within_a_second (hdr body : Nat) :
+    ∃ k, verdict { hdr := hdr, body := body } { th := none, tb := none } (hdr / Gen.timerPeriodMs + 1) = .timedOut k ∧
+         k * Gen.timerPeriodMs < hdr + 1000 := by
+  obtain ⟨k, h1, h2⟩ := stalled_head_times_out { hdr := hdr, body := body } source_period_bounds.1 (hdr / Gen.timerPeriodMs + 1) (Nat.le_refl _)
+  exact ⟨k, h1, by have := source_period_bounds.2; exact Nat.lt_of_le_of_lt h2 (by show hdr + Gen.timerPeriodMs < hdr + 1000; omega)⟩
+
 /-! ### Several connections on one worker: each is judged on its own -/
 
 /-- T7: a connection is dropped by a scan exactly when ITS phase and ITS clock say so — whatever other connections the worker
